@@ -22,6 +22,7 @@ from .utils_c import sl
 SL = Function('SL', ESeq, Str)                 # ''.join(map(str, xs))
 TL = Function('TL', ESeq, BoolSort())          # every element tight
 TAg = Function('TAg', ESeq, BoolSort())        # argument list: every group tight and not preceded by a dropped spacer
+AA = Function('allargs', ESeq, BoolSort())     # every element is a TexGroup or a TexCmd (what TexArgs keeps in the list)
 BARE = Function('bare', ESeq, BoolSort())      # some argument was a bare token / bare command (read_arg_required)
 NW = Function('NW', Str, Str)                  # erases blank and end-of-line characters (string homomorphism)
 tight = Function('tight', E, BoolSort())       # serialises to exactly the tokens it was read from
@@ -45,7 +46,7 @@ def kind_of(cls):
 
 
 def sl_facts(st, xs):
-    st.fact(Implies(Length(xs) == 0, And(SL(xs) == Empty(Str), TL(xs), TAg(xs), Not(BARE(xs)))))
+    st.fact(Implies(Length(xs) == 0, And(SL(xs) == Empty(Str), TL(xs), TAg(xs), Not(BARE(xs)), AA(xs))))
     st.fact(Implies(Length(xs) == 1, SL(xs) == ser(xs[0])))
 
 
@@ -58,15 +59,35 @@ def snoc_facts(st, old, x, new):
     st.fact(TAg(new) == And(TAg(old), tight(x), Not(gapped(x)), Not(bare_x)))
     st.fact(BARE(new) == Or(BARE(old), bare_x))
     st.fact(Length(new) == Length(old) + 1)
+    st.fact(AA(new) == And(AA(old), is_arg_kind(x)))
     sl_facts(st, old)
+
+
+def is_arg_kind(x):
+    return Or(*[kind(x) == kind_of(c) for c in ('data.BraceGroup', 'data.BracketGroup', 'data.TexCmd')])
+
+
+@REG.specfun('allargs')
+def _allargs(ctx, xs):
+    xs = as_eseq(xs, ctx.st)
+    sl_facts(ctx.st, xs.z)
+    return VB(AA(xs.z))
 
 
 def nw_concat(st, z):
     """NW is a string homomorphism: instance for a concrete concatenation, NW(c) == c for blank-free literal pieces"""
     from pyvc.smt import pyval
+
+    def flat(t):
+        if z3.is_app(t) and t.decl().kind() == z3.Z3_OP_SEQ_CONCAT:
+            out = []
+            for c in t.children():
+                out += flat(c)
+            return out
+        return [t]
     if z3.is_app(z) and z.decl().kind() == z3.Z3_OP_SEQ_CONCAT:
         parts = []
-        for c in z.children():
+        for c in flat(z):
             v = pyval(c)
             if isinstance(v, list) and all(isinstance(x, int) for x in v):
                 lit = ''.join(chr(x) for x in v)
